@@ -101,6 +101,12 @@ var props = map[string]*propCfg{
 			"a decoder returning (DynamicVal, err) together is an error result; only the error matters",
 			"worker processes run under a 3 GiB address-space limit so that an absurd allocation is a deterministic death, attributed to the record through the tape dumped before decoding"},
 		stubs: []string{"record store with fault injection (the library is handed complete byte slices; it has no I/O of its own)", "writers and readers (seeded)"}},
+	"C06": {quickRuns: 1 << 40, quickBudget: 40 * time.Second, thorBudget: 9 * time.Minute, thorRuns: 1 << 40, level: "exploration",
+		rule: "one evaluation = one simulated run of the monitor's own workload: a generated world (6..40 pool values of all kinds with marks, nulls, refined unknowns, capsules, collision-prone sets; types with placeholders and optional attributes; shared ValueSets) on which 20..79 operations drawn from the whole C20 operation table (~75 operations over the public API) and 10..39 constructor / conversion calls on awkward arguments (unnormalised keys, two spellings of one key, typed members next to placeholders, already-marked members, empty collections, conversion targets derived from the value's own type by kind swaps, placeholders, optional attributes, dropped and added attributes) are executed sequentially; every returned value and the members reached from it by iteration go through the well-formedness monitor (public accessor walk + tag-guarded internal check). The monitor additionally runs inside every other check (C03, C05, C10, C17, C19, C20), where a failure is reported as a C06 violation with that check's replay file. Every run is non-trivial; distinct = distinct (pool size, operation count, constructor count, multiset of fired kinds). values_checked_wellformed and wellformed_by_producer report what was checked per producing entry point.",
+		assumptions: []string{"NullVal / UnknownVal / gocty.ToCtyValue given a type constraint that itself carries optional attributes return a value of that type as given; passing such a type to a constructor is caller misuse (the annotations are documented as meaningful only as conversion targets) and is not generated",
+			"a collection may be built from placeholder-typed members next to typed ones; the placeholder is allowed exactly for unknown or null members and wholly-placeholder collections, as the constructors document",
+			"conformance of conversion results to their target is property C08 (not decided by this work): the monitor counts it in a probe and never reports it"},
+		stubs: []string{"caller (seeded operation and constructor sequences)", "capsule operations"}},
 	"C05": {quickRuns: 160000, quickBudget: 40 * time.Second, thorBudget: 9 * time.Minute, thorRuns: 1 << 40, level: "exploration",
 		rule: "one evaluation = one simulated run: either a seeded history of 1..12 refinement-builder calls with interleaved NewValue snapshots (builder reused after a snapshot, or refining restarted from a snapshot; rejected calls are the injected contradictions) checked call by call against an interval/nullness/prefix/length model with 8 membership candidates, or one generated string cut at every rune boundary with 5 continuations each. A run is non-trivial when at least one builder call was accepted or more than one cut was examined; distinct = distinct (start type and kind | string, multiset of fired fault kinds) among non-trivial runs.",
 		assumptions: []string{"numbers are compared by their shortest decimal rendering (integers exactly), as go-cty documents for Equals since 1.9.0",
